@@ -274,9 +274,14 @@ def gen_cases(rng, n, tier):
     for i in range(n):
         r = rng.random()
         scale = _scale(rng, tier)
+        # integer-dtype stream: the same kind of data as whole numbers in int64 arrays (moderate size: int64 products
+        # must not wrap; no far offsets)
+        is_int = rng.random() < 0.12
+        if is_int:
+            scale = 2.0 ** rng.randint(3, 5)
         if r < 0.22:
             k = rng.randint(0, 5)
-            off = _offset(rng)
+            off = [0.0, 0.0, 0.0] if is_int else _offset(rng)
             ts = [_tri(rng, scale, degenerate=rng.random() < 0.15, offset=off) for _ in range(k)]
             d = [x * scale for x in grid_vec(rng)]
             cases.append({"kind": "normals", "tris": ts, "shift": d})
@@ -284,7 +289,9 @@ def gen_cases(rng, n, tier):
             k = rng.randint(1, 4)
             ts, ps = [], []
             for _ in range(k):
-                t = _tri(rng, scale, degenerate=rng.random() < 0.08)
+                # (a zero-area triangle in an integer array is outside the property's domain and behaves differently:
+                # the epsilon written into the integer `s` truncates to 0)
+                t = _tri(rng, scale, degenerate=(rng.random() < 0.08) and not is_int)
                 ts.append(t)
                 ps.append(_coplanar_point(rng, t) if rng.random() < 0.5 else [x * scale for x in grid_vec(rng)])
             cases.append({"kind": "bary", "tris": ts, "points": ps})
@@ -362,7 +369,22 @@ def gen_cases(rng, n, tier):
         else:
             fs = [[rng.randint(0, 20) for _ in range(3)] for _ in range(rng.randint(0, 5))]
             cases.append({"kind": "edges", "faces": fs, "normalize": rng.random() < 0.5})
+        if is_int and cases[-1]["kind"] in INT_KINDS:
+            cases[-1]["int"] = True
+            cases[-1]["kind_detail"] = "int64"
     return cases
+
+
+INT_KINDS = ("normals", "bary", "contains", "same_side", "sample_weights", "sample_area")
+
+
+def _arr(x, c, shape):
+    a = np.array(x, dtype=np.float64).reshape(shape)
+    if c.get("int"):
+        b = a.astype(np.int64)
+        if np.array_equal(a, b):  # (a case whose data are not whole numbers simply stays float64)
+            return b
+    return a
 
 
 # ---------------------------------------------------------------------------------------------------------
@@ -380,12 +402,12 @@ def run_impl(c):
     def go():
         kind = c["kind"]
         if kind == "normals":
-            ts = _tris(c["tris"])
+            ts = _arr(c["tris"], c, (-1, 3, 3))
             before = ts.copy()
             with np.errstate(all="ignore"):
                 o = {"raw": surface_normals(ts, normalize=False).tolist(), "unit": surface_normals(ts).tolist(),
                      "area": surface_area(ts).tolist()}
-                for name, tt in (("cyc", ts[:, [1, 2, 0]]), ("shift", ts + np.array(c["shift"])), ("swap", ts[:, [0, 2, 1]])):
+                for name, tt in (("cyc", ts[:, [1, 2, 0]]), ("shift", ts + _arr(c["shift"], c, (3,))), ("swap", ts[:, [0, 2, 1]])):
                     o[name + "_raw"] = surface_normals(tt, normalize=False).tolist()
                     o[name + "_unit"] = surface_normals(tt).tolist()
                     o[name + "_area"] = surface_area(tt).tolist()
@@ -395,20 +417,20 @@ def run_impl(c):
             o["args_unchanged"] = bool(np.array_equal(before, ts))
             return o
         if kind == "bary":
-            ts, ps = _tris(c["tris"]), np.array(c["points"], dtype=np.float64).reshape(-1, 3)
+            ts, ps = _arr(c["tris"], c, (-1, 3, 3)), _arr(c["points"], c, (-1, 3))
             before = (ts.copy(), ps.copy())
             w = barycentric_coordinates_of_points(ts, ps)
             return {"w": w.tolist(), "args_unchanged": bool(np.array_equal(before[0], ts) and np.array_equal(before[1], ps))}
         if kind in ("contains", "same_side"):
             f = tri_contains_coplanar_point if kind == "contains" else coplanar_points_are_on_same_side_of_line
-            rows = np.array(c["rows"], dtype=np.float64).reshape(-1, 4, 3)
+            rows = _arr(c["rows"], c, (-1, 4, 3))
             one = [bool(f(r[0], r[1], r[2], r[3])) for r in rows]
             if c["single"]:
                 return {"res": one, "single": one}
             st = f(rows[:, 0], rows[:, 1], rows[:, 2], rows[:, 3])
             return {"res": [bool(x) for x in st], "single": one}
         if kind in ("sample_weights", "sample_area", "sample_all_degenerate"):
-            ts = _tris(c["tris"])
+            ts = _arr(c["tris"], c, (-1, 3, 3))
             ws = None if c["weights"] is None else np.array(c["weights"], dtype=np.float64)
             m = len(c["us"])
 
